@@ -138,6 +138,35 @@ class Interp:
             else:
                 raise AnalysisBroken('%s: block %s has no terminator' % (f.name, blk))
 
+    def call_value(self, i, env, depth=[0]):
+        """a call of a function defined in the module whose arguments are all integers known here: the callee is interpreted with them
+        (no hooks: anything it loads is unknown) and the value it returns on every path is the result; anything else is unknown"""
+        g = self.mod.funcs.get((i.callee or '').lstrip('@')) if getattr(i, 'callee', None) else None
+        if g is None or not g.order or depth[0] >= 3 or not re.match(r'^i\d+$', i.ty or ''):
+            return TOP
+        args = getattr(i, 'args', None)
+        if args is None or len(args) != len(g.params):
+            return TOP
+        params = {}
+        for (ty, v), (pty, pname) in zip(args, g.params):
+            x = self.val(v, env)
+            if x == TOP or not re.match(r'^i\d+$', pty.split()[0]):
+                return TOP
+            params[pname] = x
+        rets = []
+
+        def obs(j, e, ip):
+            if j.op == 'ret':
+                rets.append(ip.val(j.ops[0], e) if j.ops else TOP)
+        depth[0] += 1
+        try:
+            Interp(self.mod, g, obs, budget=20000, params=params).run()
+        except AnalysisBroken:
+            return TOP
+        finally:
+            depth[0] -= 1
+        return rets[0] if rets and all(x == rets[0] for x in rets) else TOP
+
     def exec(self, i, env):
         if self.observe:
             self.observe(i, env, self)
@@ -213,6 +242,8 @@ class Interp:
                 if m:
                     v = int(m.group(1))       # a read-only scalar global: its initialiser
             r = TOP if v is None else v
+        elif op == 'call':
+            r = self.call_value(i, env)
         elif op == 'select':
             c = self.val(i.ops[0], env)
             if c != TOP:
